@@ -14,7 +14,8 @@ RULE = ("fault matrix: 14 fault kinds (operand type mismatch in 4 operator famil
         "is written in, message = m for _এরর. Also compared with the Lean model (class, line, file, message). The command "
         "line tool is run on a sample: exit status 1, diagnostic on stderr, stdout preserved. "
         "Non-trivial: call depth >= 1 or the fault is in a module."
-        ' Closing-return-fault family (fault in the operand of the return written after the block: empty / non-empty body x top / nested / module) and multiline-before-fault family (literals and comments spanning lines, ending in a line break, CR, CR LF, before the faulting statement).')
+        ' Closing-return-fault family (fault in the operand of the return written after the block: empty / non-empty body x top / nested / module) and multiline-before-fault family (literals and comments spanning lines, ending in a line break, CR, CR LF, before the faulting statement).'
+        ' Shared name-collision family (props/collisions.py): 24 scenarios in which one name is bound more than once, x 2 layouts.')
 ASSUMPTIONS = ["every statement is written on one line, so 'the line of the statement' is unambiguous"]
 default_compare = lambda m, i: C.compare_run(m, i, line=True, file=True)
 
@@ -326,6 +327,12 @@ def cases(rng, tier, stats):
     ib = index_boundary_family(tier)
     out += ib
     stats["index_boundary"] = len(ib)
+    # one name in two roles (props/collisions.py): shadowed functions, parameters named like globals / built-ins / their own function,
+    # bare conditions, indexed and plain writes, re-declarations — every use of a name resolves to its innermost binding
+    from props import collisions
+    nc_ = collisions.family()
+    out += nc_
+    stats["name_collision_programs"] = len(nc_)
     return out
 
 
